@@ -57,11 +57,11 @@ static unsigned char draw() { return pr_draw(); }
 static unsigned char below(unsigned char n) { return pr_below(n); }
 #endif
 
-// which (state, method) pairs the state classes below define.  SA (id 0): everything; SB (id 1): nothing; SC (id 2): enter, update, exitGuard;
+// which (state, method) pairs the state classes below define.  SA (id 0): everything; SB (id 1): nothing; SC (id 2, declared with an injected base Mix): enter, update, exitGuard, entryGuard;
 // Rt (id 255): update, planSucceeded, planFailed
 static bool defines(int id, Method m) {
   if (id == 0) return m != Method::PLAN_SUCCEEDED && m != Method::PLAN_FAILED && m != Method::NONE && m != Method::COUNT;
-  if (id == 2) return m == Method::ENTER || m == Method::UPDATE || m == Method::EXIT_GUARD;
+  if (id == 2) return m == Method::ENTER || m == Method::UPDATE || m == Method::EXIT_GUARD || m == Method::ENTRY_GUARD;
   if (id == INV) return HEAD && (m == Method::UPDATE || m == Method::PLAN_SUCCEEDED || m == Method::PLAN_FAILED);
   return false;
 }
@@ -179,7 +179,23 @@ struct SA : FSM::State {
   void exitGuard(GuardControl& c) { deliver(0, Method::EXIT_GUARD); guard(c, 0); }
   void exit(PlanControl&) { deliver(0, Method::EXIT); }
 };
-struct SC : FSM::State {
+// user code of an INJECTED base: the method record of the delivery must already be there, and stays for the state's own callback
+static void deliver_injected(int id, Method m) {
+  vrec(300 + (unsigned)m, id);
+#if ROLE == 0
+  if (attached) vassert(pend && pend_id == id && pend_m == m, 1618);      // emitted before ANY user code of that delivery runs
+#else
+  pr_rec(0xC0 + ((unsigned)m & 15));
+#endif
+  (void)id; (void)m;
+}
+struct Mix : FSM::State {
+  void entryGuard(GuardControl& c) { deliver_injected(2, Method::ENTRY_GUARD); guard(c, 2); }
+  void exitGuard(GuardControl& c) { deliver_injected(2, Method::EXIT_GUARD); guard(c, 2); }
+  void update(FullControl&) { deliver_injected(2, Method::UPDATE); }
+};
+struct SC : FSM::StateT<Mix> {
+  void entryGuard(GuardControl&) { deliver(2, Method::ENTRY_GUARD); }
   void enter(PlanControl&) { deliver(2, Method::ENTER); }
   void update(FullControl& c) { deliver(2, Method::UPDATE); request(c, 2); }
   void exitGuard(GuardControl& c) { deliver(2, Method::EXIT_GUARD); guard(c, 2); }
